@@ -28,7 +28,7 @@ def check(ctx):
     fh = P.func(qh)
     it = interp(ctx, opaque={VQ, ZQ})
     ctx.touch(qh)
-    p = only(it.run_function(qh), qh)
+    p = only(it.run_function(qh), qh, ctx, "C08-b")
     evs = [e for e in p.events if e.kind == "ext_call" and e.data["callee"] == "scipy.integrate.quad"]
     if len(evs) != 1:
         raise AnalysisError(f"{qh}: expected one quad call, found {len(evs)}")
@@ -55,10 +55,10 @@ def check(ctx):
     # compared by value: only the z-factor (a numerical root) is kept as an atom; the library's viscosity is evaluated at the
     # integration variable and must appear - whether the integrand calls viscosity_Sutton or a worker it shares with it
     itc = interp(ctx, opaque={ZQ})
-    pc = only(itc.run_function(fi.qualname, args={fi.params[0]: Num(nf.sym(Q))}), fi.qualname)
+    pc = only(itc.run_function(fi.qualname, args={fi.params[0]: Num(nf.sym(Q))}), fi.qualname, ctx, "C08-a")
     own = ["temperature", Q, "temperature_pseudocritical", "pressure_pseudocritical"]
     z = nf.fn(ZQ, *[nf.sym(n) for n in own])
-    mu_q = only(run(ctx, VQ, opaque={ZQ}, args={"pressure": Num(nf.sym(Q))}), VQ).value.nf
+    mu_q = only(run(ctx, VQ, opaque={ZQ}, args={"pressure": Num(nf.sym(Q))}), VQ, ctx, "C08-a").value.nf
     ctx.identity(
         "C08-a", qh + ":integrand", fi.where(),
         "integrand == 2 q / (viscosity_Sutton(T, q, ...) * z_factor_DAK(T, q, ...)) with q the integration variable (not the outer pressure)",
@@ -77,7 +77,7 @@ def check(ctx):
     fs = P.func(qs)
     its = interp(ctx)
     ctx.touch(qs)
-    ps = only(its.run_function(qs), qs)
+    ps = only(its.run_function(qs), qs, ctx, "C08-b")
     evs = [e for e in ps.events if e.kind == "ext_call" and e.data["callee"] in QUADRATURE]
     if len(evs) > 1:
         raise AnalysisError(f"{qs}: expected one quadrature call")
@@ -110,7 +110,7 @@ def check(ctx):
     fb = P.func(qb)
     itb = interp(ctx, opaque={VQ, ZQ, GAS + "density_DAK", GAS + "compressibility_DAK", GAS + "pseudocritical_point_Sutton", GAS + "make_nonhydrocarbon_properties"})
     ctx.touch(qb)
-    pb = only(itb.run_function(qb), qb)
+    pb = only(itb.run_function(qb), qb, ctx, "C08-b")
     evs = [e for e in pb.events if e.kind == "ext_call" and e.data["callee"] in QUADRATURE]
     if len(evs) != 1:
         raise AnalysisError(f"{qb}: expected one quadrature call")
